@@ -17,6 +17,7 @@ Verdict(r) ==
   \cup (IF \A a, b \in 1..Len(r.stamps) : a < b => r.stamps[a] <= r.stamps[b] THEN {} ELSE {"stamps_decreasing"})
   \cup (IF r.rejected_ok THEN {} ELSE {"bad_report_not_rejected"})
   \cup (IF r.rejected_silent THEN {} ELSE {"rejected_report_left_trace"})
+  \cup (IF r.good_ok THEN {} ELSE {"serialisable_report_rejected"})      \* a report the property promises to deliver raised
 TInit == Init /\ k = 1 /\ \A i \in 1..Len(Runs) : PrintT(<<"@@FLG@@", i, Verdict(Runs[i])>>)
 TNext == UNCHANGED <<vars, k>>
 TSpec == TInit /\ [][TNext]_<<vars, k>>
